@@ -1608,3 +1608,51 @@ func (c *Ctx) RuleBufAlias() *Result {
 	}
 	return res
 }
+
+// RuleCtorNonNil (C19): a constructor of the repository that returns a pointer
+// and no error never returns nil: its callers use the result without a test
+// (configuration.New, NewContext, NewParser, ...), so a nil from it is a nil
+// dereference a few calls later.
+func (c *Ctx) RuleCtorNonNil() *Result {
+	res := &Result{Rule: "CTOR-NONNIL", MinInst: 5}
+	for _, fn := range c.P.RepoFns {
+		if !strings.HasPrefix(fn.Name(), "New") || fn.Signature.Recv() != nil || fn.Signature.Results().Len() != 1 || len(fn.Blocks) == 0 {
+			continue
+		}
+		if _, ok := fn.Signature.Results().At(0).Type().Underlying().(*types.Pointer); !ok {
+			continue
+		}
+		res.Instances++
+		key := load.FnName(fn) + ":never returns nil"
+		bad := ""
+		allInstrs(fn, func(in ssa.Instruction) {
+			r, ok := in.(*ssa.Return)
+			if !ok || len(r.Results) == 0 {
+				return
+			}
+			var walk func(v ssa.Value, d int)
+			walk = func(v ssa.Value, d int) {
+				if d > 4 {
+					return
+				}
+				switch x := v.(type) {
+				case *ssa.Const:
+					if x.Value == nil {
+						bad = c.P.InstrPos(r)
+					}
+				case *ssa.Phi:
+					for _, e := range x.Edges {
+						walk(e, d+1)
+					}
+				}
+			}
+			walk(r.Results[0], 0)
+		})
+		if bad != "" {
+			res.bad(key, c.P.FnPos(fn), fmt.Sprintf("%s returns nil at %s; it has no error result and its callers use what it returns without a test: the next access is a nil-pointer dereference (a runtime fault instead of a diagnostic)", load.FnName(fn), bad))
+		} else {
+			res.ok(key, c.P.FnPos(fn), "every return yields an allocated value")
+		}
+	}
+	return res
+}
